@@ -152,7 +152,8 @@ def gen_history(rng, spec, roots, refs, opts):
             cid += 1
             bstep = {'op': 'build', 'chain': c, 'root': roots[ri], 'ri': ri, 'parameter_mode': opts.get('parameter_mode', True)}
             if live and opts.get('p_shared_registry') and opts.get('parameter_mode', True) and rng.random() < opts['p_shared_registry']:
-                bstep['shared_from'] = rng.choice(list(live))       # Chain(config, shared_tasks=<registry of an earlier chain of this process>)
+                others_ = [c_ for c_ in live if live[c_] != ri]
+                bstep['shared_from'] = rng.choice(others_ if others_ and rng.random() < 0.7 else list(live))       # Chain(config, shared_tasks=<registry of an earlier chain of this process>)
             steps.append(bstep)
             live[c] = ri
             for _ in range(rng.randint(1, opts.get('max_requests', 5))):
